@@ -109,3 +109,214 @@ Theorem C17_merge_timeout_plain_min_refuted :
     (exists v, In v (set_values group) /\ 0 < v) /\ merge_timeout_plain_min dflt group = 0.
 Proof. exact merge_timeout_plain_min_refuted. Qed.
 Print Assumptions C17_merge_timeout_plain_min_refuted.
+
+(* ======================================================================================== *)
+(* The reader with the arithmetic Go performs (int64, wrapping l.n+1 and l.n-n, panicking
+   p[:l.n+1]): for EVERY limit 0 <= limit <= 2^63-2 nothing wraps, the coded Read never panics
+   and IS the ideal reader of C17_limit_exact — so exactness holds on that whole range. *)
+Theorem C17_int64_read_refines_ideal :
+  forall (A : Type) (s : @mbr A) m,
+  0 <= m_n s <= max_int64 - 1 -> mbr_read64 s m = R_ok (mbr_read s m).
+Proof. intros A. exact (@mbr_read64_refines A). Qed.
+Print Assumptions C17_int64_read_refines_ideal.
+
+Example C17_int64_read_refines_ideal_nonvacuous :
+  mbr_read64 (mbr_init (max_int64 - 1) [1;2;3]%N [] true) 8%nat
+  = R_ok ([1;2;3]%N, Some EOF,
+          {| m_n := max_int64 - 4; m_err := Some EOF;
+             m_u := {| u_data := []; u_script := []; u_eof_with_data := true |} |}).
+Proof. vm_compute. reflexivity. Qed.
+
+Theorem C17_limit_exact_all_int64_partial :
+  forall (A : Type) (limit : Z) (body : list A) script eofd bufs,
+  0 <= limit <= max_int64 - 1 ->
+  exists d e s', read_all64 (mbr_init limit body script eofd) bufs = R_ok (d, e, s') /\
+  read_all (mbr_init limit body script eofd) bufs = (d, e, s') /\
+  d = firstn (length d) body /\ Z.of_nat (length d) <= limit /\
+  (e = Some EOF -> d = body /\ Z.of_nat (length body) <= limit) /\
+  (e = Some TooLarge -> limit < Z.of_nat (length body) /\ d = firstn (Z.to_nat limit) body) /\
+  e <> Some ErrOther.
+Proof. intros A. exact (@limit_exact_int64 A). Qed.
+Print Assumptions C17_limit_exact_all_int64_partial.
+
+(* ... but NOT for limit = 2^63-1 (which `limits 9223372036854775807` configures): l.n+1 wraps to
+   -2^63 and the very first non-empty Read panics, whatever the body. *)
+Theorem C17_limit_exact_all_int64_refuted :
+  exists (limit : Z) (body : list N) script eofd bufs,
+  0 <= limit <= max_int64 /\ read_all64 (mbr_init limit body script eofd) bufs = R_panic.
+Proof. exact limit_exact_all_int64_refuted. Qed.
+Print Assumptions C17_limit_exact_all_int64_refuted.
+
+Theorem C17_limit_maxint64_always_panics :
+  forall (A : Type) (body : list A) script eofd m bufs,
+  (1 <= m)%nat -> read_all64 (mbr_init max_int64 body script eofd) (m :: bufs) = R_panic.
+Proof. intros A. exact (@read_all64_maxint64_panics A). Qed.
+Print Assumptions C17_limit_maxint64_always_panics.
+
+Example C17_limit_maxint64_always_panics_nonvacuous :
+  read_all64 (mbr_init max_int64 ([] : list N) [] false) [8%nat] = R_panic.
+Proof. vm_compute. reflexivity. Qed.
+
+(* negative limits (never produced by the directive, see C17_parse_size_in_range) *)
+Theorem C17_negative_limit_misbehaves :
+  forall (A : Type) (s : @mbr A) m, m_err s = None -> (1 <= m)%nat ->
+  (- two63 <= m_n s < -1 -> mbr_read64 s m = R_panic) /\
+  (m_n s = -1 -> mbr_read64 s m = R_neg (-1)).
+Proof. intros A. exact (@negative_limit_misbehaves A). Qed.
+Print Assumptions C17_negative_limit_misbehaves.
+
+Example C17_negative_limit_misbehaves_nonvacuous :
+  mbr_read64 (mbr_init (-2) [1%N] [] true) 4%nat = R_panic /\
+  mbr_read64 (mbr_init (-1) [1%N] [] true) 4%nat = R_neg (-1).
+Proof. split; vm_compute; reflexivity. Qed.
+
+(* Count level (the underlying reader may claim ANY counts 0..2^63-1, so the boundary is
+   reachable): for every limit up to 2^63-2 and every caller that keeps reading, the counts
+   handed out are non-negative and add up to min(limit, what the reader claimed); the remaining
+   allowance never leaves [0, limit]; too-large is reported iff the claims exceed the limit. *)
+Theorem C17_count_exact_int64 :
+  forall limit bufs answers,
+  0 <= limit <= max_int64 - 1 -> answers_ok answers ->
+  exists outs s' consumed rest,
+    cnt_run (cnt_init limit) bufs answers = R_ok (outs, s', rest) /\ answers = consumed ++ rest /\
+    (forall o, In o outs -> 0 <= fst o) /\
+    zsum (map fst outs) = Z.min limit (zsum (map fst consumed)) /\
+    0 <= c_n s' <= limit /\
+    (limit < zsum (map fst consumed) <-> c_err s' = Some TooLarge).
+Proof. exact count_exact_int64. Qed.
+Print Assumptions C17_count_exact_int64.
+
+Example C17_count_exact_int64_nonvacuous :
+  answers_ok [(max_int64 - 2, None); (1, None); (1, None)] /\
+  cnt_run (cnt_init (max_int64 - 1)) [4; 4; 4; 4] [(max_int64 - 2, None); (1, None); (1, None)]
+  = R_ok ([(max_int64 - 2, None); (1, None); (0, Some TooLarge); (0, Some TooLarge)],
+          {| c_n := 0; c_err := Some TooLarge |}, []).
+Proof.
+  split; [|vm_compute; reflexivity].
+  intros a [<-|[<-|[<-|[]]]]; cbn; unfold max_int64, two63; split; try lia; discriminate.
+Qed.
+
+Theorem C17_count_maxint64_panics :
+  forall m bufs answers, m <> 0 -> - two63 < m ->
+  cnt_run (cnt_init max_int64) (m :: bufs) answers = R_panic.
+Proof. exact count_maxint64_panics. Qed.
+Print Assumptions C17_count_maxint64_panics.
+
+(* ---- size strings of the limits directive ---- *)
+(* whatever is accepted lies in 1..2^63-1: the reader is never set up with a zero or negative limit *)
+Theorem C17_parse_size_in_range :
+  forall s v, accept_size s = Some v -> 1 <= v <= max_int64.
+Proof. exact accept_size_range. Qed.
+Print Assumptions C17_parse_size_in_range.
+
+Example C17_parse_size_in_range_nonvacuous :
+  accept_size (bs "10MB"%string) = Some 10485760 /\ accept_size (bs "0"%string) = None /\
+  accept_size (bs "-5"%string) = None /\ accept_size (bs "9223372036854775807"%string) = Some max_int64.
+Proof. repeat split; vm_compute; reflexivity. Qed.
+
+(* "the parsed value is number*unit exactly, or an error" is FALSE: the product is an int64
+   product and a wrapped value that happens to be >= 1 is accepted *)
+Theorem C17_parse_size_exact_refuted :
+  exists s n u v, denote s = Some (n, u) /\ accept_size s = Some v /\ v <> n * u.
+Proof. exact parse_size_exact_refuted. Qed.
+Print Assumptions C17_parse_size_exact_refuted.
+
+(* strongest true statement: an accepted string denotes sign/digits/unit with the number in
+   int64 range, the value is the WRAPPED product, and it is the exact product whenever that
+   product fits int64 *)
+Theorem C17_parse_size_exact_partial :
+  forall s v, accept_size s = Some v ->
+  exists n u, denote s = Some (n, u) /\ - two63 <= n < two63 /\ 1 <= u <= 1073741824 /\
+    v = wrap64 (n * u) /\ 1 <= v <= max_int64 /\
+    (- two63 <= n * u < two63 -> v = n * u /\ 1 <= n * u).
+Proof. exact accept_size_denotes. Qed.
+Print Assumptions C17_parse_size_exact_partial.
+
+(* conversely every string that denotes a product within 1..2^63-1 is accepted with exactly that
+   value, and a rejected string denotes nothing or a product outside that range: so accepted
+   values are exact EXCEPT for overflowing products (the refuted case above) *)
+Theorem C17_parse_size_complete :
+  forall s n u, denote s = Some (n, u) -> 1 <= n * u <= max_int64 -> accept_size s = Some (n * u).
+Proof. exact accept_size_complete. Qed.
+Print Assumptions C17_parse_size_complete.
+
+Example C17_parse_size_complete_nonvacuous :
+  denote (bs "+8gB"%string) = Some (8, 1073741824) /\ accept_size (bs "+8gB"%string) = Some 8589934592.
+Proof. split; vm_compute; reflexivity. Qed.
+
+Theorem C17_parse_size_rejects :
+  forall s, accept_size s = None ->
+  match denote s with None => True | Some (n, u) => ~ (1 <= n * u <= max_int64) end.
+Proof. exact accept_size_rejects. Qed.
+Print Assumptions C17_parse_size_rejects.
+
+(* ---- the handlers that read the (limited) body ---- *)
+(* whatever the consumer's read pattern, the backend receives a prefix of the body never longer
+   than the limit, and exactly the first [limit] bytes when the reader reported too-large *)
+Theorem C17_backend_never_beyond_limit :
+  forall limit body script eofd bufs d e,
+  0 <= limit -> consumer_reads limit body script eofd bufs = (d, e) ->
+  d = firstn (length d) body /\ Z.of_nat (length d) <= limit /\
+  (e = Some TooLarge -> limit < Z.of_nat (length body) /\ d = firstn (Z.to_nat limit) body).
+Proof. exact backend_never_beyond_limit. Qed.
+Print Assumptions C17_backend_never_beyond_limit.
+
+Example C17_backend_never_beyond_limit_nonvacuous :
+  consumer_reads 3 [1;2;3;4;5]%N [2;1;5]%nat true [4;4;4;4]%nat = ([1;2;3]%N, Some TooLarge).
+Proof. vm_compute. reflexivity. Qed.
+
+(* "whenever the reader reports too-large the client sees 413" is FALSE of the code: *)
+Theorem C17_too_large_is_413_refuted :
+  exists k clf bs, bs = 200 /\ consumer_status k clf (Some TooLarge) bs <> 413.
+Proof. exact too_large_is_413_refuted. Qed.
+Print Assumptions C17_too_large_is_413_refuted.
+
+(* it holds for a streamed proxy upload without Content-Length ... *)
+Theorem C17_too_large_is_413_partial :
+  forall bs, consumer_status ProxyStream false (Some TooLarge) bs = 413.
+Proof. exact too_large_is_413_partial. Qed.
+Print Assumptions C17_too_large_is_413_partial.
+
+(* ... and nowhere else (fastcgi relays the responder's own status) *)
+Theorem C17_too_large_status_table :
+  forall k clf bs, consumer_status k clf (Some TooLarge) bs = 413 <->
+    (k = ProxyStream /\ clf = false) \/ (k = Fastcgi /\ bs = 413).
+Proof. exact too_large_status_table. Qed.
+Print Assumptions C17_too_large_status_table.
+
+(* ---- the listener's http.Server, all merged fields, as the loops are coded ---- *)
+(* each field is the strictest-value merge of ITS OWN column of the group (so the specs
+   C17_merge_timeout_strictest / C17_merge_header_limit_strictest apply to every field) *)
+Theorem C17_listener_fields_are_strictest :
+  forall dflt g, let sv := new_server dflt g in
+  sv_read sv = merge_timeout (sv_read dflt) (map s_read g) /\
+  sv_rhdr sv = merge_timeout (sv_rhdr dflt) (map s_rhdr g) /\
+  sv_write sv = merge_timeout (sv_write dflt) (map s_write g) /\
+  sv_idle sv = merge_timeout (sv_idle dflt) (map s_idle g) /\
+  ((forall c, In c g -> 0 <= s_maxhdr c) -> sv_maxhdr sv = merge_header_limit (map s_maxhdr g)).
+Proof. exact new_server_fields. Qed.
+Print Assumptions C17_listener_fields_are_strictest.
+
+Example C17_listener_fields_are_strictest_nonvacuous :
+  let a := {| s_read := (true, 0); s_rhdr := (true, 20); s_write := (false, 0); s_idle := (true, 7); s_maxhdr := 0 |} in
+  let b := {| s_read := (true, 10); s_rhdr := (true, 5); s_write := (false, 0); s_idle := (true, 0); s_maxhdr := 4096 |} in
+  new_server {| sv_read := 100; sv_rhdr := 100; sv_write := 200; sv_idle := 300; sv_maxhdr := 0 |} [a; b]
+  = {| sv_read := 10; sv_rhdr := 5; sv_write := 200; sv_idle := 7; sv_maxhdr := 4096 |}.
+Proof. vm_compute. reflexivity. Qed.
+
+Theorem C17_listener_order_independent :
+  forall dflt g g', Permutation g g' -> new_server dflt g = new_server dflt g'.
+Proof. exact new_server_perm. Qed.
+Print Assumptions C17_listener_order_independent.
+
+(* a site's own (positive) value is never relaxed by the sites it shares the listener with *)
+Theorem C17_merge_never_relaxes :
+  forall dflt g c, (forall c', In c' g -> site_ok c') -> In c g ->
+  site_honoured (new_server dflt g) c = true.
+Proof. exact merge_never_relaxes. Qed.
+Print Assumptions C17_merge_never_relaxes.
+
+Example C17_merge_never_relaxes_nonvacuous :
+  let a := {| s_read := (true, 0); s_rhdr := (true, 20); s_write := (false, 0); s_idle := (true, 7); s_maxhdr := 0 |} in
+  site_ok a /\ honours 5 20 = true /\ honours 0 20 = false /\ honours 30 20 = false.
+Proof. cbv zeta. unfold site_ok. cbn. repeat split; lia. Qed.
